@@ -22,5 +22,7 @@ Inv_ReadBack == (vSeen /\ Res.ok) => \A j \in 1..Len(Res.items) :
 \* a line is refused exactly when some tag (text between two '@', before a blank-then-'#' comment) contains a blank
 Inv_FaultColumn == (vSeen /\ ~Res.ok) => /\ "exc" \in DOMAIN Res
                                          /\ LineOfTags[Res.col] = AT
-Emit == vSeen => PrintT(<<"TAGS", ToJson([line |-> LineOfTags, ok |-> Res.ok, items |-> IF Res.ok THEN Res.items ELSE <<>>, col |-> IF Res.ok THEN 0 ELSE Res.col])>>)
+Impl == TagLineAsImplemented(LineOfTags)
+Emit == vSeen => PrintT(<<"TAGS", ToJson([line |-> LineOfTags, ok |-> Res.ok, items |-> IF Res.ok THEN Res.items ELSE <<>>, col |-> IF Res.ok THEN 0 ELSE Res.col,
+                                          iok |-> Impl.ok, iitems |-> IF Impl.ok THEN Impl.items ELSE <<>>, icol |-> IF Impl.ok THEN 0 ELSE Impl.col])>>)
 =============================================================================
